@@ -543,7 +543,7 @@ static const char *cbop_class(int op)
 }
 
 typedef struct {
-	int n, op[3], ret;
+	int n, op[4], ret;
 	int ran;
 } prog_t;
 
@@ -606,7 +606,7 @@ static int prog_cb(jwt_t *jwt, jwt_config_t *cfg)
 
 static const char *prog_str(const prog_t *p)
 {
-	static char b[300];
+	static char b[400];
 	size_t o = 0;
 	b[0] = 0;
 	for (int i = 0; i < p->n; i++)
@@ -703,13 +703,13 @@ static void enumerate_c19(void)
 	char *jt = vk_oct_jwk(HKEY, sizeof HKEY, NULL, NULL);
 	hset = jwks_create(jt);
 	free(jt);
-	int maxlen = vf_thorough ? 3 : 2;
+	int maxlen = vf_thorough ? 4 : 2;
 	for (int len = 0; len <= maxlen; len++) {
 		int total = 1;
 		for (int i = 0; i < len; i++)
 			total *= NCBOPS;
 		for (int code = 0; code < total; code++) {
-			prog_t p = { len, { 0, 0, 0 }, 0, 0 };
+			prog_t p = { len, { 0, 0, 0, 0 }, 0, 0 };
 			int c = code;
 			for (int i = len - 1; i >= 0; i--) {
 				p.op[i] = c % NCBOPS;
